@@ -562,6 +562,26 @@ def h_concrete_custom_basis(ctx):
             got = teneva.als_func(X, y, A0, nswp=nswp, e=None, lamb=0.3, fh=fh, info={})
             ok = ok and all(np.allclose(a, b, rtol=1e-8, atol=1e-10) for a, b in zip(got, ref1))
     ctx.claim('per_mode_basis_callables_used_for_their_own_mode', bool(ok))
+    # the dynamic search of the mode size (n_max above the stored size, left rank > 1: the trial
+    # cores are then non-contiguous views): core 1, updated last, is the minimiser given the others
+    lamb = 1e-3
+    Xs = rng.uniform(-1., 1., size=(120, d))
+    ys = np.sin(1.3 * Xs[:, 0] + 0.7 * Xs[:, 1] - Xs[:, 2]) + 0.5 * Xs[:, 1] * Xs[:, 2]
+    okg = True
+    for n_max in (None, n + 1, n + 4):
+        for nswp in (1, 2):
+            A = teneva.als_func(Xs, ys, A0, nswp=nswp, e=None, lamb=lamb, n_max=n_max, info={})
+            nn = [G.shape[1] for G in A]
+            T = teneva.func_basis(Xs, max(nn))
+            H = [T[:nn[k], :, k].T for k in range(d)]
+            L = np.einsum('jn,anb->jb', H[0], A[0])
+            R = np.einsum('jn,anb->aj', H[2], A[2])
+            M = np.einsum('ja,jn,bj->janb', L, H[1], R).reshape(len(ys), -1)
+            g = A[1].reshape(-1)
+            grad = -2. * M.T @ (ys - M @ g) + 2. * lamb * g
+            scale = 2. * np.linalg.norm(M.T @ ys) + 2. * lamb * np.linalg.norm(g)
+            okg = okg and bool(np.linalg.norm(grad) <= 1e-8 * scale) and [G.shape[0] for G in A] == [G.shape[0] for G in A0]
+    ctx.claim('last_updated_core_is_minimiser_with_dynamic_mode_size', bool(okg))
 
 
 def _layouts(d, n, m, limit=None):
